@@ -183,3 +183,19 @@ mod tests {
         });
     }
 }
+
+/// Verification hook (only with `--cfg qcow2_rs_verif`): how much meta data is
+/// dirty in ram, so that a checker can compare it with need_flush_meta()
+#[cfg(qcow2_rs_verif)]
+impl<T: Qcow2IoOps> Qcow2Dev<T> {
+    /// (dirty l2 slices in cache, dirty refblock slices in cache, dirty l1
+    /// table blocks, dirty refcount table blocks)
+    pub async fn verif_dirty_counts(&self) -> (usize, usize, usize, usize) {
+        let l2 = self.l2cache.get_dirty_entries(0, usize::MAX).len();
+        let rb = self.refblock_cache.get_dirty_entries(0, usize::MAX).len();
+        let l1 = self.l1table.read().await.verif_dirty_blocks();
+        let rt = self.reftable.read().await.verif_dirty_blocks();
+
+        (l2, rb, l1, rt)
+    }
+}
